@@ -211,6 +211,8 @@ static void ecpDblJ(word b[], const word a[], const ec_o* ec, void* stack)
 	// za == 0 или ya == 0? => b <- O
 	if (qrIsZero(ecZ(a, n), ec->f) || qrIsZero(ecY(a, n), ec->f))
 	{
+		qrSetZero(ecX(b), ec->f);
+		qrSetZero(ecY(b, n), ec->f);
 		qrSetZero(ecZ(b, n), ec->f);
 		return;
 	}
@@ -276,6 +278,8 @@ static void ecpDblJA3(word b[], const word a[], const ec_o* ec, void* stack)
 	// za == 0 или ya == 0? => b <- O
 	if (qrIsZero(ecZ(a, n), ec->f) || qrIsZero(ecY(a, n), ec->f))
 	{
+		qrSetZero(ecX(b), ec->f);
+		qrSetZero(ecY(b, n), ec->f);
 		qrSetZero(ecZ(b, n), ec->f);
 		return;
 	}
@@ -341,6 +345,8 @@ static void ecpDblAJ(word b[], const word a[], const ec_o* ec, void* stack)
 	// ya == 0? => b <- O
 	if (qrIsZero(ecY(a, n), ec->f))
 	{
+		qrSetZero(ecX(b), ec->f);
+		qrSetZero(ecY(b, n), ec->f);
 		qrSetZero(ecZ(b, n), ec->f);
 		return;
 	}
@@ -456,7 +462,11 @@ static void ecpAddJ(word c[], const word a[], const word b[], const ec_o* ec,
 			ecpDblJ(c, c == a ? b : a, ec, stack);
 		// t3 != t4 => a == -b => c <- O
 		else
+		{
+			qrSetZero(ecX(c), ec->f);
+			qrSetZero(ecY(c, n), ec->f);
 			qrSetZero(ecZ(c, n), ec->f);
+		}
 		return;
 	}
 	// zc <- zc t1 [((Z1 + Z2)^2 - Z1Z1 - Z2Z2)H = Z3]
@@ -546,7 +556,11 @@ static void ecpAddAJ(word c[], const word a[], const word b[], const ec_o* ec,
 			ecpDblAJ(c, b, ec, stack);
 		// t2 != 0 => c <- O
 		else
+		{
+			qrSetZero(ecX(c), ec->f);
+			qrSetZero(ecY(c, n), ec->f);
 			qrSetZero(ecZ(c, n), ec->f);
+		}
 		return;
 	}
 	// zc <- t1 za
